@@ -27,6 +27,9 @@ pub enum Plan5 {
     Script { inst: Inst, ctx: Hx, nonce: Hx, rand: Hx, vk: Hx, meas: Vec<N>, usage: u16, pattern: String, root_log: u8, at: u16, val: N },
     /// wrong-length arguments to prove / query / decide / valid
     Lengths { inst: Inst, meas: Vec<N>, which: String, arg: u8, delta: i8 },
+    /// the proof system driven directly: arbitrary additive sharings of (input, proof) into k
+    /// shares, valid and invalid inputs, honest and arbitrary proofs
+    Linear { inst: Inst, meas: Vec<N>, raw: Option<Vec<N>>, shares: u8, pattern: String, arbitrary_proof: bool, seed: u64 },
 }
 
 pub struct Check05;
@@ -70,7 +73,11 @@ fn gen(seed: u64) -> Plan5 {
     }
     let meas = model::gen_meas(&inst, rng);
     if rng.chance(1, 5) {
-        return Plan5::Lengths { inst, meas, which: rng.pick(&["prove", "query", "decide", "valid", "truncate"]).to_string(), arg: rng.below(4) as u8, delta: if rng.chance(1, 2) { -1 } else { 1 } };
+        let raw = if rng.chance(1, 3) { Some(model::gen_invalid_raw(&inst, rng).0) } else { None };
+        return Plan5::Linear { shares: *rng.pick(&[1u8, 2, 2, 3, 4, 7, 16, 255]), pattern: rng.pick(&["random", "random", "zeros", "minus_one", "copy", "first_all"]).to_string(), arbitrary_proof: raw.is_none() && rng.chance(1, 5), seed: rng.u64(), raw, inst, meas };
+    }
+    if rng.chance(1, 5) {
+        return Plan5::Lengths { inst, meas, which: rng.pick(&["prove", "query", "decide", "valid", "truncate"]).to_string(), arg: rng.below(4) as u8, delta: *rng.pick(&[-1i8, -1, 1, 1, 2, 9, -2, i8::MIN]) };
     }
     let usage = *rng.pick(&[3u16, 4, 5, 5, 5]);
     let pattern = *rng.pick(&["zeros", "ones", "repeat", "small", "root", "root", "random", "one_root"]);
@@ -356,6 +363,157 @@ impl<'a, 'c, 'cc> TypVisitor for ScriptVis<'a, 'c, 'cc> {
     }
 }
 
+struct LinVis<'a, 'c, 'cc> {
+    ctx: &'c mut Ctx<'cc>,
+    raw: Option<&'a [N]>,
+    k: usize,
+    pattern: &'a str,
+    arbitrary_proof: bool,
+    seed: u64,
+    class: &'a str,
+}
+
+impl<'a, 'c, 'cc> TypVisitor for LinVis<'a, 'c, 'cc> {
+    type Out = Result<(), String>;
+    fn visit<T: Type + Clone>(self, typ: T, _alg: u32, meas: T::Measurement) -> Self::Out {
+        let ctx = self.ctx;
+        let mut rng = Rng::new(self.seed);
+        let esz = T::Field::ENCODED_SIZE;
+        let mut rand_vec = |n: usize| -> Vec<T::Field> { decode_stream::<T::Field>(&rng.bytes((n + 2) * esz * 2), n) };
+        let from_raw = |x: u128| -> Result<T::Field, String> { T::Field::get_decoded(&x.to_le_bytes()[..esz]).map_err(|e| format!("harness raw value: {e}")) };
+        let input: Vec<T::Field> = match self.raw {
+            Some(r) => r.iter().map(|x| from_raw(x.0)).collect::<Result<_, _>>()?,
+            None => typ.encode_measurement(&meas).map_err(|e| e.to_string())?,
+        };
+        if input.len() != typ.input_len() {
+            return Err(format!("harness input length {} != {}", input.len(), typ.input_len()));
+        }
+        let prove_rand = rand_vec(typ.prove_rand_len());
+        let joint_rand = rand_vec(typ.joint_rand_len());
+        let proof = if self.arbitrary_proof {
+            rand_vec(typ.proof_len())
+        } else {
+            match guard("Flp::prove", || typ.prove(&input, &prove_rand, &joint_rand)) {
+                Ok(Ok(p)) => p,
+                Ok(Err(e)) => {
+                    ctx.fail(Violation::new("C05.complete", format!("prove|{}", self.class), format!("prove refused a well-formed call: {e}")));
+                    return Ok(());
+                }
+                Err(v) => {
+                    ctx.fail(v);
+                    return Ok(());
+                }
+            }
+        };
+        if proof.len() != typ.proof_len() {
+            ctx.fail(Violation::new("C05.lengths", format!("proof_len|{}", self.class), format!("proof has {} elements, proof_len() = {}", proof.len(), typ.proof_len())));
+            return Ok(());
+        }
+        // additive sharings of input and proof into k shares
+        let k = self.k.max(1);
+        let minus_one = T::Field::zero() - T::Field::one();
+        let mut split = |v: &[T::Field]| -> Vec<Vec<T::Field>> {
+            let mut shares: Vec<Vec<T::Field>> = Vec::with_capacity(k);
+            let mut rest: Vec<T::Field> = v.to_vec();
+            for i in 0..k - 1 {
+                let sh: Vec<T::Field> = match self.pattern {
+                    "zeros" => vec![T::Field::zero(); v.len()],
+                    "minus_one" => vec![minus_one; v.len()],
+                    "copy" => v.to_vec(),
+                    "first_all" => {
+                        if i == 0 {
+                            v.to_vec()
+                        } else {
+                            vec![T::Field::zero(); v.len()]
+                        }
+                    }
+                    _ => rand_vec(v.len()),
+                };
+                for (r, s) in rest.iter_mut().zip(sh.iter()) {
+                    *r -= *s;
+                }
+                shares.push(sh);
+            }
+            shares.push(rest);
+            shares
+        };
+        let in_sh = split(&input);
+        let pf_sh = split(&proof);
+        ctx.fault("arbitrary_additive_sharing");
+        let mut accepted_all = true;
+        for attempt in 0..3 {
+            let query_rand = rand_vec(typ.query_rand_len());
+            let whole = match guard("Flp::query", || typ.query(&input, &proof, &query_rand, &joint_rand, 1)) {
+                Ok(Ok(v)) => v,
+                Ok(Err(_)) => {
+                    // only a root-of-unity query element may be refused; with random elements that is negligible
+                    ctx.counters.inc("c05.linear.query_refused");
+                    return Ok(());
+                }
+                Err(v) => {
+                    ctx.fail(v);
+                    return Ok(());
+                }
+            };
+            if whole.len() != typ.verifier_len() {
+                ctx.fail(Violation::new("C05.lengths", format!("verifier_len|{}", self.class), format!("verifier has {} elements, verifier_len() = {}", whole.len(), typ.verifier_len())));
+                return Ok(());
+            }
+            let mut sum = vec![T::Field::zero(); whole.len()];
+            for i in 0..k {
+                let part = match guard("Flp::query(share)", || typ.query(&in_sh[i], &pf_sh[i], &query_rand, &joint_rand, k)) {
+                    Ok(Ok(v)) => v,
+                    Ok(Err(e)) => {
+                        ctx.fail(Violation::new("C05.linear", format!("share_query_err|{}", self.class), format!("query on share {i} of {k} failed although the whole query succeeded: {e}")));
+                        return Ok(());
+                    }
+                    Err(v) => {
+                        ctx.fail(v);
+                        return Ok(());
+                    }
+                };
+                if part.len() != sum.len() {
+                    ctx.fail(Violation::new("C05.lengths", format!("share_verifier_len|{}", self.class), "verifier share length differs from the whole verifier".to_string()));
+                    return Ok(());
+                }
+                for (a, b) in sum.iter_mut().zip(part.iter()) {
+                    *a += *b;
+                }
+            }
+            ctx.events += k as u64 + 1;
+            if sum != whole {
+                ctx.fail(Violation::new("C05.linear", format!("sum|{}|{}", self.class, self.pattern), format!("the verifier of the whole (input, proof) differs from the sum of the verifiers of a {k}-share `{}` sharing", self.pattern)));
+                return Ok(());
+            }
+            let ok = match guard("Flp::decide", || typ.decide(&sum)) {
+                Ok(Ok(b)) => b,
+                Ok(Err(e)) => return Err(format!("decide failed on a well-formed verifier: {e}")),
+                Err(v) => {
+                    ctx.fail(v);
+                    return Ok(());
+                }
+            };
+            let honest_valid = self.raw.is_none() && !self.arbitrary_proof;
+            if honest_valid {
+                if !ok {
+                    ctx.fail(Violation::new("C05.complete", format!("decide|{}", self.class), format!("an honest proof for a valid input was rejected (query randomness draw {attempt})")));
+                    return Ok(());
+                }
+                break; // completeness needs one draw
+            }
+            if !ok {
+                accepted_all = false;
+                ctx.counters.inc(if self.raw.is_some() { "c05.linear.invalid_rejected" } else { "c05.linear.arbitrary_proof_rejected" });
+                break;
+            }
+        }
+        if accepted_all && (self.raw.is_some() || self.arbitrary_proof) {
+            ctx.fail(Violation::new("C05.sound", format!("accepts|{}|{}", self.class, if self.raw.is_some() { "invalid_input" } else { "arbitrary_proof" }), "three independent query-randomness draws all accepted an invalid input / an arbitrary proof".to_string()));
+        }
+        Ok(())
+    }
+}
+
 struct LenVis<'a, 'c, 'cc> {
     ctx: &'c mut Ctx<'cc>,
     which: &'a str,
@@ -369,10 +527,16 @@ impl<'a, 'c, 'cc> TypVisitor for LenVis<'a, 'c, 'cc> {
     fn visit<T: Type + Clone>(self, typ: T, _alg: u32, meas: T::Measurement) -> Self::Out {
         let ctx = self.ctx;
         let adj = |v: &mut Vec<T::Field>, d: i8| {
-            if d < 0 {
-                v.pop();
+            if d == i8::MIN {
+                v.clear();
+            } else if d < 0 {
+                for _ in 0..d.unsigned_abs() {
+                    v.pop();
+                }
             } else {
-                v.push(T::Field::one());
+                for _ in 0..d {
+                    v.push(T::Field::one());
+                }
             }
         };
         let z = |n: usize| vec![T::Field::one(); n];
@@ -448,6 +612,11 @@ fn exec(p: &Plan5, ctx: &mut Ctx) -> Result<(), String> {
             k32.copy_from_slice(&vk.0);
             with_typ(inst, meas, ScriptVis { ctx, inst, c: &c.0, nonce: n16, rand: &rand.0, vk: k32, usage: *usage, pattern, root_log: *root_log, at: *at, val: val.0 })?
         }
+        Plan5::Linear { inst, meas, raw, shares, pattern, arbitrary_proof, seed } => {
+            ctx.sig.str("linear").str(&inst.class).u64(*shares as u64).str(pattern).u64(raw.is_some() as u64).u64(*arbitrary_proof as u64).u64(inst.len as u64).u64(inst.chunk as u64);
+            ctx.counters.inc(&format!("class.{}", inst.class));
+            with_typ(inst, meas, LinVis { ctx, raw: raw.as_deref(), k: *shares as usize, pattern, arbitrary_proof: *arbitrary_proof, seed: *seed, class: &inst.class })?
+        }
         Plan5::Lengths { inst, meas, which, arg, delta } => {
             ctx.sig.str("lengths").str(&inst.class).str(which).u64(*arg as u64).u64((*delta + 1) as u64);
             with_typ(inst, meas, LenVis { ctx, which, arg: *arg, delta: *delta, class: &inst.class })?
@@ -515,12 +684,12 @@ impl Check for Check05 {
         out.into_iter().map(|x| serde_json::to_value(x).unwrap()).collect()
     }
     fn rule(&self) -> String {
-        "Prio3 runs over SimXof for every shipped circuit (count, sum, average, sum vector over both fields, histogram, multihot, L1-bound sum; 2..4 aggregators, 1..3 proofs, dividing and non-dividing chunk lengths) where the prove-, joint- or query-randomness derivation is replaced for all parties by a scripted stream (zeros, ones, one repeated value, small integers, a 2^k-th root of unity everywhere or at one position, pseudo-random) and all other streams are recorded; oracles: valid input accepted unless a gadget's query element is a root of unity of its wire domain, in which case every verify_init errs; leader proof share + recorded helper expansions = public prove(); sum of verifier shares = public query(whole input, whole proof, num_shares = 1); declared lengths; plus one-short / one-long arguments to prove / query / decide / valid / truncate refused with an error; distinct = distinct (class, n, proofs, scripted usage, pattern, root order, length, chunk) signatures".into()
+        "Prio3 runs over SimXof for every shipped circuit (count, sum, average, sum vector over both fields, histogram, multihot, L1-bound sum; 2..4 aggregators, 1..3 proofs, dividing and non-dividing chunk lengths) where the prove-, joint- or query-randomness derivation is replaced for all parties by a scripted stream (zeros, ones, one repeated value, small integers, a 2^k-th root of unity everywhere or at one position, pseudo-random) and all other streams are recorded; oracles: valid input accepted unless a gadget's query element is a root of unity of its wire domain, in which case every verify_init errs; leader proof share + recorded helper expansions = public prove(); sum of verifier shares = public query(whole input, whole proof, num_shares = 1); declared lengths; plus too-short / too-long / empty arguments to prove / query / decide / valid / truncate refused with an error; plus the proof system driven directly: (input, proof) split into 1..255 additive shares by random and degenerate patterns (all-zero shares, all minus one, copies of the whole, everything in the first share), for valid inputs, invalid encodings (rejected under three independent query-randomness draws) and arbitrary proofs, verifier of the whole = sum of the share verifiers; distinct = distinct (class, n, proofs, scripted usage, pattern, root order, length, chunk) signatures".into()
     }
     fn assumptions(&self) -> Vec<String> {
         vec![
             "soundness for invalid inputs is carried by C02 (Byzantine client, independent random keys), not repeated here".into(),
-            "'all sharings' is reached only through the XOF-derived sharings the protocol produces (DESIGN.md 4/C05 'not reached')".into(),
+            "'any additive sharing' is sampled (random and degenerate patterns, 1..255 shares), not enumerated".into(),
             "recorded streams are turned into field elements by the library's own sampler, which C11 checks against a plain-integer reference".into(),
         ]
     }
